@@ -326,6 +326,13 @@ fn run_inner(ch: &mut Chooser, partial: &mut Option<RunOutcome>) -> RunOutcome {
                         if got != current_path {
                             viol.push(("C15.path_trace_ds_not_updated".into(), String::new(), format!("path_trace_ds has {} entries after a parent Announce with {} entries", got.len(), current_path.len())));
                         }
+                    } else {
+                        // the parent reports no path: none is known, in particular not an earlier parent's
+                        current_path.clear();
+                        let got = node.inst.path_trace_ds().list.len();
+                        if got != 0 {
+                            viol.push(("C15.path_trace_ds_not_updated".into(), "parent_announce_without_path_trace=true".into(), format!("path_trace_ds still has {got} entries after a parent Announce that carries no PATH_TRACE TLV (emitted Announces would carry a path the parent never reported)")));
+                        }
                     }
                 }
                 let mut n_prop = 0;
